@@ -221,11 +221,29 @@ def _differs(x, y, atol):
     return not (x == y or abs(x - y) <= atol)
 
 
+def stalled_flow(*results, small=1e-5):
+    """Sum of |m| over all branches with 0 < |m| < small.  A branch whose law has no linear term (valve, gas pipe:
+    dp = c m|m|) and whose end pressures coincide has a double root at m = 0: Newton stalls there at |m| ~ sqrt(eps_p / c)
+    >> tol_m, on either side of zero depending on the declared direction.  The stalled value bounds its own error and
+    mass balance hands that error on to the neighbouring branches, so it is added to the mass-flow tolerance."""
+    tot = 0.0
+    for r in results:
+        for t in r.values():
+            col = t["cols"].get("mdot_from_kg_per_s")
+            if col:
+                tot += sum(abs(x) for x in col if x is not None and 0.0 < abs(x) < small)
+    return tot
+
+
+MASS_COLS = ("mdot_from_kg_per_s", "mdot_to_kg_per_s", "mdot_kg_per_s", "mdot_flow_kg_per_s")
+
+
 def compare(r0, r1, expect, atol=1e-8):
     """r0, r1: drive.snapshot_results of the original and the rewritten net.  Only the unknowns of the
     calculation are compared (pressures, mass flows, temperatures): every other result column is a function of
     those.  Returns a list of (table, column, label, original, rewritten)."""
     diffs = []
+    atol_m = atol + 4.0 * stalled_flow(r0, r1)
     rev = expect.get("reversed", {})
     c = expect.get("p_shift", 0.0)
     skip = expect.get("skip_tables", set())
@@ -258,13 +276,13 @@ def compare(r0, r1, expect, atol=1e-8):
                     continue
                 if col0 in PRESSURE_COLS and x is not None and y is not None:
                     y = y - c
-                if _differs(x, y, atol):
+                if _differs(x, y, atol_m if col0 in MASS_COLS else atol):
                     diffs.append((tbl, col0 + ("<->" + col1 if col0 != col1 else ""), lab, x, y))
             if pieces:   # every piece carries the same mass flow; inner pressures are those of a chain
                 m = _get(r0, tbl, "mdot_from_kg_per_s", lab)
                 for pc in pieces:
                     y = _get(r1, tbl, "mdot_from_kg_per_s", pc)
-                    if y == "absent" or _differs(m, y, atol):
+                    if y == "absent" or _differs(m, y, atol_m):
                         diffs.append((tbl, "mdot_from_kg_per_s(piece %s)" % pc, lab, m, y))
     return diffs
 
